@@ -136,7 +136,30 @@ def _load(relfile):
     return _src_cache[k]
 
 
-def emit_item(unit, store, relfile, path, mode):
+def clauses_only(text, only, key):
+    """keep everything up to and including the `ensures` keyword (all requires clauses), then only the
+    single-line ensures clauses tagged `// #<tag>` with a tag in `only`"""
+    out, in_ens, found = [], False, set()
+    for line in text.split("\n"):
+        if not in_ens:
+            out.append(line)
+            if re.match(r"\s*ensures\b", line):
+                if line.strip() != "ensures":
+                    raise ExtractError("contract ... only: `ensures` must stand on its own line in " + key)
+                in_ens = True
+            continue
+        m = re.search(r"//\s*#(\w+)", line)
+        if m and m.group(1) in only:
+            if not line.split("//")[0].rstrip().endswith(","):
+                raise ExtractError("contract ... only: clause #%s of %s is not a single line" % (m.group(1), key))
+            out.append(line); found.add(m.group(1))
+    missing = [t for t in only if t not in found]
+    if missing:
+        raise ExtractError("contract ... only: no clause tagged %s in %s" % (", ".join("#" + t for t in missing), key))
+    return "\n".join(out)
+
+
+def emit_item(unit, store, relfile, path, mode, only=None):
     src, toks = _load(relfile)
     item = rsx.find_item(src, path, toks)
     key = norm_key(relfile + " :: " + path)
@@ -226,6 +249,8 @@ def emit_item(unit, store, relfile, path, mode):
     unit.add(sig2.rstrip() + "\n", "repo", relfile, sig_line, key)
     for pos, order, anchor, text, sline in ins:
         if anchor == "spec":
+            if only is not None:
+                text = clauses_only(text, only, key)
             unit.add(MARK_IN + "\n", "marker", item=key)
             unit.add(text + "\n", "overlay", ov.specfile, sline, key)
             unit.add(MARK_OUT + "\n", "marker", item=key)
@@ -274,8 +299,15 @@ def assemble(unit_name, store=None):
                 process(os.path.join(VERIF, "contracts", s[11:].strip()), depth + 1)
             elif s.startswith("//@body ") or s.startswith("//@contract ") or s.startswith("//@type "):
                 mode, rest = s[3:].split(" ", 1)
+                only = None
+                if mode == "contract" and " only " in rest:
+                    # `//@contract <key> only #tag1 #tag2`: the caller sees just these ensures clauses of the
+                    # callee's (proved) contract -- a subset of proved clauses is implied by the whole; every
+                    # requires clause is kept
+                    rest, tags = rest.split(" only ", 1)
+                    only = [t.strip().lstrip("#") for t in tags.split() if t.strip()]
                 relfile, ipath = rest.split(" :: ", 1)
-                emit_item(unit, store, relfile.strip(), ipath.strip(), mode)
+                emit_item(unit, store, relfile.strip(), ipath.strip(), mode, only)
             else:
                 unit.add(line + "\n", "template", rel, ln)
     process(tpath)
